@@ -493,9 +493,13 @@ func (m *Machine) model(extra *sym.Term) ([]ReplayVal, []string, bool) {
 	if len(want) == 0 {
 		want = nil
 	}
-	r, env := m.Solver.Check(extra, want)
-	if r != sym.Sat {
-		return nil, nil, false
+	var env map[string]uint64
+	if want != nil || extra != nil {
+		var r sym.Result
+		r, env = m.Solver.Check(extra, want)
+		if r != sym.Sat {
+			return nil, nil, false
+		}
 	}
 	if env == nil {
 		env = map[string]uint64{}
